@@ -181,7 +181,7 @@ func C09(c *core.Ctx) {
 			return
 		}
 	}
-	if b, err := os.ReadFile(core.RepoRoot+"/loader/full-example.yml"); err == nil {
+	if b, err := os.ReadFile(core.RepoRoot + "/loader/full-example.yml"); err == nil {
 		addDoc("full-example", string(b))
 	}
 	variants := []struct {
